@@ -1558,7 +1558,11 @@ impl Visitor for Checker {
                         ));
                         return;
                     }
-                    shape = narrowed;
+                    // The constraint only has to admit the value. The binding keeps the shape
+                    // of its value; only where that is not known does the constraint tell it.
+                    if let Shape::Hole(_) | Shape::Narrowed(_) = &shape {
+                        shape = narrowed;
+                    }
                 }
                 if let Shape::TypeErr(pos, msg) = &shape {
                     self.err_stack.push(BuildError::with_pos(
